@@ -418,6 +418,34 @@ def scalar_local_decls(func_sl, before_re):
     return out
 
 
+def body_continue_to_return(sl, ret="return;"):
+    """For a loop-body fragment turned into a function of one iteration: every `continue;` that belongs to THIS loop (i.e. not
+    inside a nested for/while/do) becomes `return;`.  Any number of hits (logged in the slice); `break;` at that level is refused."""
+    def rec(text):
+        out, n = [], 0
+        for it in _split_items(text):
+            if it[0] == 'compound':
+                hdr = strip_comments(it[1]).strip()
+                if re.match(r'^(for|while|do)\b', hdr) or re.search(r'\b(for|while)\s*\($', hdr):
+                    out.append(it[1] + "{" + it[2] + "}")
+                else:
+                    inner, k = rec(it[2]); n += k
+                    out.append(it[1] + "{" + inner + "}")
+            elif it[0] == 'simple':
+                code = strip_comments(it[1])
+                if re.search(r'\bbreak\s*;', code):
+                    raise Undecided("loop-body fragment %s contains a break at loop level: not expressible as a one-iteration function" % sl.name)
+                t2, k = re.subn(r'\bcontinue\s*;', ret, it[1]); n += k
+                out.append(t2)
+            else:
+                out.append(it[1] + "\n")
+        return "".join(out), n
+    t = sl.text.strip()
+    inner, n = rec(t[1:match_close(t, 0)])
+    sl.subst_log.append({"pattern": "continue; (at this loop's level)", "replacement": ret, "hits": n})
+    return "{" + inner + "}"
+
+
 def subst(sl, rules):
     """Apply must-fire substitutions: rules = [(regex, replacement, expected_count)].
     A different hit count => Undecided.  Returns the new text; logs into the slice."""
